@@ -157,9 +157,12 @@ func (h *HelloElemVersionBitmap) UnmarshalBinary(data []byte) error {
 		return err
 	}
 	read += int(h.HelloElemHeader.Len())
+	if int(h.Length) >= read && int(h.Length) < length {
+		length = int(h.Length) // the element ends where its length field says
+	}
 
 	h.Bitmaps = make([]uint32, 0)
-	for read < length {
+	for read+4 <= length {
 		h.Bitmaps = append(h.Bitmaps, binary.BigEndian.Uint32(data[read:read+4]))
 		read += 4
 	}
@@ -232,8 +235,14 @@ func (h *Hello) UnmarshalBinary(data []byte) error {
 		case HelloElemType_VersionBitmap:
 			v := NewHelloElemVersionBitmap()
 			err = v.UnmarshalBinary(data[next:])
-			next += int(v.Len())
+			next += (int(v.Len()) + 7) / 8 * 8
 			h.Elements = append(h.Elements, v)
+		default:
+			// Implementations must ignore (skip) all elements they do not support.
+			if e.Length < 4 {
+				return errors.New("The hello element length is too short.")
+			}
+			next += (int(e.Length) + 7) / 8 * 8
 		}
 	}
 	return err
